@@ -26,6 +26,13 @@ RULE = ('per-thread scripts (object kind, configuration, ctl sequence, signal) d
         'barrier so that first use races) and once alone in a separate serial process, outputs compared by hash of '
         'every return code, packet byte, final range and PCM bit pattern')
 NOT_COVERED = [
+    'the step from the three table theorems (no_writable_globals, config_threadsafe, imports_reentrant) to the footprint '
+    'premise `Local` of interleave_eq_serial_of_footprint is an informal argument, not a Lean theorem: no codec model is '
+    'shown to be an instance of `Local`; the general theorem interleave_eq_serial holds for every step function of the '
+    'typed shape Ro -> St -> In -> St x Out, so the real content of the check is the three table checks on the built '
+    'library plus the TSan / output-equality threads harness',
+    'objects cloned by memcpy (the clone twin is the C12 check: a state that caches an absolute pointer into itself '
+    'interferes with its clone; seeded change C14-m6 is caught there, not here)',
     'data-race freedom in the C11 memory-model sense is not a Lean theorem: the Lean part proves logical '
     'non-interference of any step function with the stated footprint, and the footprint premise is checked on the '
     'binary (no writable static storage, re-entrant imports, stack scratch) and explored under ThreadSanitizer',
